@@ -8,6 +8,10 @@ Implementation functions driven (real code from $VERIF_REPO/src):
   ko.KeyObjectSelectionDocument.from_dataset (kind ko_parse), documents whose content is a real
   TID 1500 MeasurementReport (kind report_doc), sr.ReferencedSegment / ReferencedSegmentationFrame
   .from_segmentation on synthetic datasets and on real highdicom Segmentations (kind seg_real).
+  Every document kind also draws the optional constructor arguments that take part in no guard
+  (institution_name, institutional_department_name, performed_procedure_codes, requested_procedures) and
+  observes what the document records of them; kind doc_verify crosses the verification arguments
+  EXHAUSTIVELY with the three classes and with the presence of those arguments.
 Model: coq/theories/C15_Model.v; theorems: C15_Props.v.
 
 A case is JSON: content trees are nested lists [vt, tag, rel, ref|None, kids] or
@@ -41,7 +45,9 @@ ORACLE_PREMISES = [
 ]
 MODELLED = ('sr.utils.find_content_items / _create_references / collect_evidence; sr.sop._SR.__init__ guard order '
             '(evidence, transfer syntax, verification details, content sequence length, root item checks, '
-            'evidence collection, predecessors), EnhancedSR/ComprehensiveSR SCOORD3D rejection, get_evidence, '
+            'evidence collection, predecessors) and the arguments it only records (institution / department name, '
+            'performed procedure codes, requested procedures: handed through unchanged by every subclass constructor, '
+            'part of no guard), EnhancedSR/ComprehensiveSR SCOORD3D rejection, get_evidence, '
             'get_evidence_series, from_dataset class checks, srread dispatch; ko.KeyObjectSelection reference '
             'items and get_references, KeyObjectSelectionDocument.__init__, resolve_reference, '
             'KeyObjectSelectionDocument.from_dataset (class / root rebuild / template 2010 / reference table guards); '
@@ -55,7 +61,7 @@ MODELLED = ('sr.utils.find_content_items / _create_references / collect_evidence
             'on template 1500 (MeasurementReport vs ContentSequence as the type of .content); documents whose content is a '
             'real TID 1500 MeasurementReport (template classes) are compared with the model on the tree highdicom built '
             '(kind report_doc); the template getters of parsed reports are exercised by kind tid1500 (oracle only).')
-STRATA = ['find', 'collect', 'collect_err', 'doc', 'doc_err', 'roundtrip', 'from_dataset', 'ko', 'ko_err',
+STRATA = ['find', 'collect', 'collect_err', 'doc', 'doc_err', 'doc_verify', 'roundtrip', 'from_dataset', 'ko', 'ko_err',
           'ko_srread', 'ko_parse', 'segref', 'segframe', 'seg_real', 'tid1500', 'report_doc']
 NOT_EXECUTED = []
 RULE = ('trees: depth <= 4, fan-out <= 3, 15 value types, children below any value type, references drawn from a '
@@ -67,7 +73,11 @@ RULE = ('trees: depth <= 4, fan-out <= 3, 15 value types, children below any val
         'template classes (measurements with / without qualifier, method, derivation, finding sites, source images, '
         'qualitative evaluations, planar ROI groups; oracle only); evidence: pool over <= 3 studies x <= 3 series, supplied = '
         'exact / superset / strict subset / duplicates / conflicting duplicate, shuffled; classes x record_evidence '
-        'x completion/verification/final flags x previous versions; in-memory, written+srread, from_dataset of '
+        'x completion/verification/final flags x previous versions x the arguments that are only recorded '
+        '(institution name, department name with / without institution, performed procedure codes none / [] / several, '
+        'requested procedures none / [] / several); doc_verify: {3 classes} x is_verified x observer name given / not x '
+        'organization given / not x institution name given / not x department given / not, EVERY combination in every '
+        'run (in memory or written + srread), the remaining arguments random; in-memory, written+srread, from_dataset of '
         'every class on every class; malformed stream violates each guard once. segmentation references: synthetic '
         'segmentation datasets (1-6 frames, 1-3 segments, absent/empty/multiple derivation and source items, source '
         'frame numbers absent / one / several, header fallback variants, non-segmentation class) x by-segment / '
@@ -322,15 +332,53 @@ def gen_doc_args(rng, ok=True):
         'previous': None if rng.random() < 0.5 else [
             [rng.randint(20, 24), 2, rng.randint(1, 2), rng.randint(1, 3)] for _ in range(rng.randint(0, 4))],
     }
+    a.update(gen_extras(rng))
     return a
 
 
-def gen_doc(rng, kind, force_ok=False):
+EXTRA_KEYS = ('inst', 'dept', 'codes', 'requests')
+
+
+def gen_extras(rng):
+    """the optional constructor arguments that take part in no guard (numbers -> strings in make_doc)"""
+    def some(lo, hi):
+        return None if rng.random() < 0.5 else [rng.randint(1, 9) for _ in range(rng.randint(lo, hi))]
+    return {'inst': rng.randint(1, 9) if rng.random() < 0.5 else None,
+            'dept': rng.randint(1, 9) if rng.random() < 0.4 else None,
+            'codes': some(0, 3), 'requests': some(0, 2)}
+
+
+def gen_doc_verify(rng):
+    """the verification clause crossed exhaustively with the document class and with the presence of the
+    unrelated optional arguments: one small valid document per combination"""
+    out = []
+    for cls in range(3):
+        for verified in (True, True, False):
+            for observer in (False, True):
+                for org in (False, True):
+                    for inst in (False, True):
+                        for dept in (False, True):
+                            if not verified and rng.random() < 0.5:
+                                continue
+                            c = gen_doc(rng, 'doc_verify', force_ok=True, max_depth=2)
+                            if cls != 2:
+                                strip_3d(c['tree'])
+                            c.update(cls=cls, verified=verified, ts='explicit', as_seq=rng.random() < 0.2,
+                                     observer=rng.randint(1, 9) if observer else None,
+                                     org=rng.randint(1, 9) if org else None,
+                                     inst=rng.randint(1, 9) if inst else None,
+                                     dept=rng.randint(1, 9) if dept else None,
+                                     parse=rng.random() < 0.35)
+                            out.append(c)
+    return out
+
+
+def gen_doc(rng, kind, force_ok=False, max_depth=4):
     pool = gen_pool(rng)
     refpool = [(r[0], r[1]) for r in pool]
     if rng.random() < 0.15:
         refpool.append((77, 0))            # a reference nobody can supply evidence for
-    tree = gen_tree(rng, refpool, rich=True)
+    tree = gen_tree(rng, refpool, rich=True, max_depth=max_depth)
     mode = rng.choice(MODES[:-1] if force_ok else MODES)
     c = dict(gen_doc_args(rng), kind=kind, tree=tree, evidence=gen_evidence(rng, pool, tree, mode), mode=mode)
     if force_ok:
@@ -674,6 +722,8 @@ def gen_cases(rng, tier):
         cases.append(gen_doc(rng, 'doc'))
     for _ in range(80 * n):
         cases.append(gen_doc_err(rng))
+    for _ in range(n):
+        cases.extend(gen_doc_verify(rng))
     for _ in range(70 * n):
         cases.append(gen_doc(rng, 'roundtrip', force_ok=rng.random() < 0.85))
     for _ in range(36 * n):
@@ -1004,7 +1054,8 @@ def observe(doc, snapshot):
             [doc.CompletionFlag == 'COMPLETE', doc.VerificationFlag == 'VERIFIED', doc.PreliminaryFlag == 'FINAL', obs],
             [t4(t) for t in doc.get_evidence()], [t4(t) for t in doc.get_evidence(current_procedure_only=True)],
             [[num_of(a), num_of(b)] for a, b in doc.get_evidence_series()],
-            [[num_of(a), num_of(b)] for a, b in doc.get_evidence_series(current_procedure_only=True)]]
+            [[num_of(a), num_of(b)] for a, b in doc.get_evidence_series(current_procedure_only=True)],
+            observe_extras(doc)]
 
 
 TS = {'explicit': '1.2.840.10008.1.2.1', 'implicit': '1.2.840.10008.1.2', 'jpeg': '1.2.840.10008.1.2.4.50'}
@@ -1038,12 +1089,40 @@ def make_doc(c):
         kw['previous_versions'] = [plain_evidence(r) for r in c['previous']]
     if c['ts'] != 'explicit' or c['cls'] == 2:
         kw['transfer_syntax_uid'] = TS[c['ts']]
+    if c.get('inst') is not None:
+        kw['institution_name'] = f"Inst{c['inst']}"
+    if c.get('dept') is not None:
+        kw['institutional_department_name'] = f"Dept{c['dept']}"
+    if c.get('codes') is not None:
+        kw['performed_procedure_codes'] = [sr.CodedConcept(str(900 + v), SCHEME, f'p{v}') for v in c['codes']]
+    if c.get('requests') is not None:
+        kw['requested_procedures'] = [requested_procedure(v) for v in c['requests']]
     cls = getattr(sr, SR_CLASSES[c['cls']])
     doc = cls(evidence=ev, content=content, series_instance_uid=PFX + '7.1', series_number=3,
               sop_instance_uid=PFX + '7.2', instance_number=1, manufacturer='verif',
               is_complete=c['complete'], is_final=c['final'], is_verified=c['verified'],
               record_evidence=c['record'], **kw)
     return doc, snapshot, root
+
+
+def requested_procedure(v):
+    from pydicom import Dataset
+    ds = Dataset()
+    ds.RequestedProcedureID = f'RP{v}'
+    ds.StudyInstanceUID = study_of(1)
+    ds.AccessionNumber = f'A{v}'
+    return ds
+
+
+def observe_extras(doc):
+    """what the document records of the arguments that take part in no guard (plain pydicom)"""
+    def opt(kw, prefix):
+        return None if kw not in doc else _suffix(doc.get(kw), prefix)
+    codes = doc.get('PerformedProcedureCodeSequence')
+    reqs = doc.get('ReferencedRequestSequence')
+    return [opt('InstitutionName', 'Inst'), opt('InstitutionalDepartmentName', 'Dept'),
+            None if codes is None else [_suffix(x.get('CodeValue'), '90') for x in codes],
+            None if reqs is None else [_suffix(x.get('RequestedProcedureID'), 'RP') for x in reqs]]
 
 
 def observe_built(doc, snapshot, root, parsed=None):
@@ -1342,12 +1421,20 @@ def tree_shape(ds):
             opts_from(ds), [tree_shape(k) for k in ds.get('ContentSequence', [])]]
 
 
+def doc_kind(c):
+    """a doc_verify case is handled like a doc case (in memory) or like a roundtrip case (written + srread)"""
+    k = c['kind']
+    if k == 'doc_verify':
+        return 'roundtrip' if c.get('parse') else 'doc'
+    return k
+
+
 def run_impl(c):
     import warnings
     warnings.filterwarnings('ignore')
     from highdicom import sr
     from highdicom.sr import utils as sru
-    k = c['kind']
+    k = doc_kind(c)
     if k == 'find':
         ds = build_raw(c['tree'], root=True, has_cs=c['has_cs'])
         q = c['q']
@@ -1569,7 +1656,16 @@ def coq_args(c):
     prev = 'None' if c['previous'] is None else f"(Some {coq_evd(c['previous'])})"
     return (f"(Args {coq_evd(c['evidence'])} {content} {coq_b(c['root_cs'])} {coq_b(c['ts'] != 'jpeg')} "
             f"{coq_b(c['complete'])} {coq_b(c['final'])} {coq_b(c['verified'])} {coq_optz(c['observer'])} "
-            f"{coq_optz(c['org'])} {prev} {coq_b(c['record'])})")
+            f"{coq_optz(c['org'])} {prev} {coq_b(c['record'])} {coq_extras(c)})")
+
+
+def coq_optzl(x):
+    return 'None' if x is None else f'(Some {coq_zl(x)})'
+
+
+def coq_extras(c):
+    return (f"(Extras {coq_optz(c.get('inst'))} {coq_optz(c.get('dept'))} {coq_optzl(c.get('codes'))} "
+            f"{coq_optzl(c.get('requests'))})")
 
 
 def coq_zl(xs):
@@ -1597,7 +1693,7 @@ def coq_seg(g):
 
 
 def coq_term(c):
-    k = c['kind']
+    k = doc_kind(c)
     if k == 'find':
         q = c['q']
         qq = (f"(Query {coq_optz(q['name'])} {'None' if q['vt'] is None else '(Some ' + COQ_VT[q['vt']] + ')'} "
@@ -1722,7 +1818,10 @@ def doc_expect_error(c):
     if c['ts'] == 'jpeg':
         return 'unsupported transfer syntax'
     if c['verified'] and (c['observer'] is None or c['org'] is None):
-        return 'verified without verification details'
+        return ('verified without verification details (observer name ' +
+                ('missing' if c['observer'] is None else 'given') + ', organization ' +
+                ('missing' if c['org'] is None else 'given') +
+                (f", institution name {c['inst']} given" if c.get('inst') is not None else '') + ')')
     if c['as_seq'] and c.get('seq_n', 1) != 1:
         return 'content sequence without exactly one item'
     if c['tree'][2] != 0 or c['tree'][0] != 0:
@@ -1738,10 +1837,29 @@ def doc_expect_error(c):
     return None
 
 
+def check_extras(c, extras):
+    """the arguments that take part in no guard are recorded as given - and nowhere else"""
+    inst, dept, codes, reqs = extras
+    if inst != c.get('inst'):
+        return f"institution name recorded as {inst}, given {c.get('inst')}"
+    if dept is not None and dept != c.get('dept'):
+        return f"department name recorded as {dept}, given {c.get('dept')}"
+    if dept is None and c.get('dept') is not None and c.get('inst') is not None:
+        return 'department name given together with an institution name but not recorded'
+    if codes != (c.get('codes') or []):
+        return f"performed procedure codes recorded as {codes}, given {c.get('codes')}"
+    if reqs != c.get('requests'):
+        return f"requested procedures recorded as {reqs}, given {c.get('requests')}"
+    return None
+
+
 def check_doc_obs(c, obs, parsed=False, ref=None):
-    cls, tree, cur, oth, pred, flags, ge, gec, ges, gesc = obs
+    cls, tree, cur, oth, pred, flags, ge, gec, ges, gesc, extras = obs
     if isinstance(tree, str):
         return tree
+    m = check_extras(c, extras)
+    if m:
+        return m
     if cls != c['cls']:
         return f"document has SOP class {cls}, requested {c['cls']}"
     if ref is None:
@@ -2036,7 +2154,7 @@ def oracle_ko_parse(c, out):
 
 
 def oracle(c, out):
-    k = c['kind']
+    k = doc_kind(c)
     if k == 'report_doc':
         return oracle_report_doc(c, out)
     if k == 'ko_parse':
@@ -2178,7 +2296,8 @@ def shrink(c):
         if isinstance(c.get(key), list):
             for i in range(len(c[key])):
                 yield dict(c, **{key: c[key][:i] + c[key][i + 1:]})
-    for key, v in (('previous', None), ('verified', False), ('as_seq', False), ('record', True), ('descr', None)):
+    for key, v in (('previous', None), ('verified', False), ('as_seq', False), ('record', True), ('descr', None),
+                   ('inst', None), ('dept', None), ('codes', None), ('requests', None), ('parse', False)):
         if key in c and c[key] != v:
             yield dict(c, **{key: v})
 
